@@ -1,11 +1,15 @@
 """Obligations, reports, known findings, evidence (DESIGN.md section 3)."""
 import json
 import os
+import re
 import sys
 import time
 
 VERIF_DIR = os.path.dirname(os.path.dirname(os.path.abspath(__file__)))
 REPO = os.environ.get('H2VERIF_REPO', '/repo')
+
+
+_INL = re.compile(r'_inl\d+_')
 
 
 class AnalysisError(Exception):
@@ -18,8 +22,10 @@ class Obligation:
     def __init__(self, rule, where, desc, ok, detail='', loc=None,
                  nontrivial=True):
         self.rule = rule
-        self.where = where
-        self.desc = desc
+        # locals of inlined helpers carry a numbered prefix (normalise.py);
+        # keys must not depend on it
+        self.where = _INL.sub('', where) if isinstance(where, str) else where
+        self.desc = _INL.sub('', desc) if isinstance(desc, str) else desc
         self.ok = bool(ok)
         self.detail = detail
         self.loc = loc
